@@ -93,6 +93,11 @@ class Issue:
         self.confidence = confidence
         if isinstance(text, bytes):
             text = text.decode("utf-8")
+        # a lone surrogate (a "\ud800" escape in a quoted literal) cannot be
+        # written to any report: keep the escaped text, which is also what a
+        # baseline report holds, so that the two compare equal
+        if isinstance(text, str):
+            text = text.encode("utf-8", "backslashreplace").decode("utf-8")
         self.text = text
         self.ident = ident
         self.fname = ""
